@@ -166,6 +166,24 @@ func reachNative(label string)  { Reached[label] = true }
 func stopNative()               { panic("vx.Stop") }
 func setBudget(d string, n int) { budgets[d] = n }
 
+// faultNative mirrors the executor's maybeFault: the question is only asked while the domain has budget left and the
+// global cap is not used up, and an injected fault is counted.
+func faultNative(domain, site string) bool {
+	if model == nil || budgets[domain] <= 0 {
+		return false
+	}
+	if faultCapSet && faultCap <= 0 {
+		return false
+	}
+	if nextDecision("fault:"+domain+":"+site, 2) == 1 {
+		budgets[domain]--
+		faultCap--
+		faulted[domain+":"+site]++
+		return true
+	}
+	return false
+}
+
 func clockNow() (int64, int64) {
 	if model == nil {
 		return 0, 0
